@@ -119,6 +119,34 @@ Proof.
   apply sinv_isolated in H. apply H.
 Qed.
 
+(* what del / reset_<a> / reset install: on an instance that may be written (not
+   frozen, or being initialised) and for a managed attribute, __delattr__ is
+   exactly "look up the default as the constructor does, prepare it as the
+   constructor does, assign it in place"; when there is no default the entry is
+   removed.  InitMethod (Model.init_) obtains the value of an absent keyword by
+   the same lookup_default_value and assigns it through __setattr__, i.e.
+   through the same prepare_attr_value and mutate_attr. *)
+Theorem C08_reset_installs_what_init_assigns :
+  forall ct rec s l a skip c d k sp,
+    nth_error (heap s) l = Some (OInst c d) -> lookup_cls ct c = Some k ->
+    (c_frozen k = false \/ initializing d = true) -> lookup_attr k a = Some sp ->
+    delattr_ ct rec l a false skip s =
+    (dv <- lookup_default_value ct rec sp k ;;
+     if is_missing dv
+     then raw_delattr l a ;;; (if skip then ret tt else invalidate_attrs ct rec l a) ;;; ret VNone
+     else (v <- prepare_attr_value ct rec sp l dv None ;;
+           mutate_attr ct rec l a v true true true skip)) s.
+Proof.
+  intros ct rec s l a skip c d k sp Hn Hk Hfz Ha. unfold delattr_.
+  rewrite bind_ok with (a := (c, d)) (s1 := s).
+  2:{ unfold read_inst. rewrite bind_ok with (a := OInst c d) (s1 := s); [reflexivity|].
+      unfold read. rewrite Hn. reflexivity. }
+  cbn [fst snd]. rewrite bind_ok with (a := k) (s1 := s) by (unfold cls_of; rewrite Hk; reflexivity).
+  rewrite bind_ok with (a := tt) (s1 := s).
+  2:{ destruct Hfz as [H|H]; rewrite H; cbn [orb negb andb]; [destruct (initializing d)|]; reflexivity. }
+  rewrite Ha. reflexivity.
+Qed.
+
 (* the initial situation of every generated case: the heap holds exactly the
    class-level default objects (plain collections of scalars), the roots are those objects *)
 Lemma C08_initial_state_isolated h0 :
@@ -164,5 +192,6 @@ Print Assumptions C08_construct_fresh.
 Print Assumptions C08_default_is_fresh.
 Print Assumptions C08_reset_keeps_defaults_isolated.
 Print Assumptions C08_defaults_isolated.
+Print Assumptions C08_reset_installs_what_init_assigns.
 Print Assumptions C08_initial_state_isolated.
 Print Assumptions C08_nonvacuous.
